@@ -1,6 +1,7 @@
 package props
 
 import (
+	"errors"
 	"fmt"
 	"runtime"
 	"strconv"
@@ -43,9 +44,17 @@ func c18Put(rp sse.Replayer, tok string, auto bool, topics []string) (weak.Point
 //go:noinline
 func c18Alive(p weak.Pointer[sse.Message]) bool { return p.Value() != nil }
 
+var c18ReplayCalls int
+
 //go:noinline
 func c18Replay(rp sse.Replayer, id string, set bool) int {
 	cl := &mon.RecClient{}
+	// every third replay goes to a client whose first, second or third Send fails
+	c18ReplayCalls++
+	if c18ReplayCalls%3 == 0 {
+		cl.FailSendAt = 1 + (c18ReplayCalls/3)%3
+		cl.Err = errors.New("injected Send failure during a replay")
+	}
 	sub := sse.Subscription{Client: cl, Topics: []string{"a", "b"}}
 	if set {
 		sub.LastEventID = sse.ID(id)
